@@ -88,7 +88,7 @@ def nativize(cls, names):
         _NATIVIZED.add((cls, n))
         try:
             register_patch(f, native(f))
-        except Exception:  # already registered
+        except BaseException:  # already registered (CrossHairInternal is not an Exception)
             pass
 
 
